@@ -22,6 +22,9 @@ def build_evse(sid, e):
     return FiniteRatesEVSE(sid, list(e["rates"]))
 
 
+LAST_EVSES = {}  # station id -> EVSE object of the most recently built network (harness-side handle)
+
+
 def build_network(nd, cls=None, order=None, cons_order=None, **kw):
     from acnportal.acnsim.network import ChargingNetwork, Current
     cls = cls or ChargingNetwork
@@ -30,8 +33,11 @@ def build_network(nd, cls=None, order=None, cons_order=None, **kw):
     else:
         net = cls(**kw)
     stations = nd["stations"] if order is None else [nd["stations"][i] for i in order]
+    LAST_EVSES.clear()
     for s in stations:
-        net.register_evse(build_evse(s["id"], s["evse"]), s["voltage"], s["phase"])
+        evse = build_evse(s["id"], s["evse"])
+        LAST_EVSES[s["id"]] = evse
+        net.register_evse(evse, s["voltage"], s["phase"])
     cons = nd["constraints"] if cons_order is None else [nd["constraints"][i] for i in cons_order]
     for c in cons:
         net.add_constraint(Current(dict(c["coeffs"])), c["limit"], name=c["name"])
